@@ -346,12 +346,16 @@ impl<D: DataMut> ReaderFrom for VecZnx<D> {
         let len: usize = reader.read_u64::<LittleEndian>()? as usize;
 
         // Validate metadata consistency: n * cols * size * sizeof(i64) must match data length.
-        let expected_len: usize = new_n * new_cols * new_size * size_of::<i64>();
-        if expected_len != len {
+        // Checked: the header is untrusted and the product may not fit a usize.
+        let limb_len: Option<usize> = new_n
+            .checked_mul(new_cols)
+            .and_then(|x| x.checked_mul(size_of::<i64>()));
+        let expected_len: Option<usize> = limb_len.and_then(|x| x.checked_mul(new_size));
+        if expected_len != Some(len) {
             return Err(std::io::Error::new(
                 std::io::ErrorKind::InvalidData,
                 format!(
-                    "VecZnx metadata inconsistent: n={new_n} * cols={new_cols} * size={new_size} * 8 = {expected_len} != data len={len}"
+                    "VecZnx metadata inconsistent: n={new_n} * cols={new_cols} * size={new_size} * 8 = {expected_len:?} != data len={len}"
                 ),
             ));
         }
